@@ -91,3 +91,15 @@ def Listed (P : Project) (id : Nat) : Prop :=
   (∃ a l, (a, l) ∈ P.lists ∧ Item.ent id ∈ l)
 
 end Ford.Links
+
+namespace Ford.Links
+
+/-- entity `e` with the class / `obj` / identifier information of its parent chain replaced -/
+def reclassEnt (f : List Anc → List Anc) (e : Ent) : Ent := { e with chain := f e.chain }
+
+/-- the same project - names, attributes, parents, collections - where every entity is of
+    another class (`f` rewrites what `get_dir`/`get_url` and `.obj` see) -/
+def reclass (f : List Anc → List Anc) (P : Project) : Project :=
+  { P with ents := P.ents.map (reclassEnt f) }
+
+end Ford.Links
